@@ -31,6 +31,8 @@ for n in names:
     else:
         print("[setup] harness %s ok" % n, flush=True)
 if bad:
-    sys.exit("setup failed for: " + ", ".join(bad))
+    # A property whose build fails here is reported by its own check (which rebuilds); it must not keep the
+    # other properties' checks from running.
+    print("[setup] WARNING: build failed for: " + ", ".join(bad), flush=True)
 PY
 echo "setup ok"
